@@ -83,6 +83,8 @@ def gen_plan(rng, special=0.25, sizes=(1, 3)):
                     if len(real_dirs) < 8:
                         if rng.random() < 0.05:
                             nm = nm + "__pycache__"
+                        elif rng.random() < 0.03:
+                            nm = "b2.py"  # a *directory* that os.path.exists() finds as the ".py sibling" of b2.pyc
                         real_dirs.append(d + "/" + nm)
                         nxt.append(d + "/" + nm)
             frontier = nxt
@@ -91,7 +93,7 @@ def gen_plan(rng, special=0.25, sizes=(1, 3)):
     seen_paths = set()
 
     def add(path, kind, content):
-        if path in seen_paths:
+        if path in seen_paths or path in real_dirs:
             return
         seen_paths.add(path)
         files.append({"path": path, "kind": kind, "content": content})
@@ -386,3 +388,8 @@ REGEXES = {
     "source": script_base._only_source_rev_file,
     "legacy": script_base._legacy_rev,
 }
+
+# which look-ahead do the regexes of the tree under test have?  (?!\.\#|__init__) rejects every name that
+# starts with __init__ (pinned tree, finding C19-F13); a repaired (?!\.\#|__init__\.) rejects only the module
+# __init__.  Determined from behaviour, passed to the model as Cfg.initDot.
+INIT_DOT = REGEXES["source"].match("__init__x.py") is not None
